@@ -122,11 +122,105 @@ def tb(v):
     return z3.BoolVal(bool(v))
 
 
-class SymInt:
-    __slots__ = ("t",)
+# --- linear forms -------------------------------------------------------------------------------
+# Every SymInt carries lin = (const, ((atom_id, coeff), ...)) with atoms = z3 terms (inputs or opaque
+# sub-terms), so that t == const + sum coeff*atom over Z.  Two uses, both sound because every input
+# range is an assumption of the path condition and int80-exact is discharged on every path:
+#   * base+offset addressing: positions whose linear parts cancel differ by a known constant;
+#   * cheap interval pre-check of comparisons from the declared input ranges: decides most
+#     bounds checks without a solver call (the solver still decides everything else).
+ATOMS = {}      # atom_id -> (term, lo, hi)   (lo/hi None when unbounded / unknown)
+_TERMS = {}     # lin -> canonical z3 term
 
-    def __init__(self, t):
+
+def reset_atoms():
+    ATOMS.clear()
+    _TERMS.clear()
+
+
+def declare_range(term, lo, hi):
+    ATOMS[term.get_id()] = (term, lo, hi)
+
+
+def _lin_of_term(t):
+    if z3.is_bv_value(t):
+        return (t.as_signed_long(), ())
+    i = t.get_id()
+    if i not in ATOMS:
+        ATOMS[i] = (t, None, None)
+    return (0, ((i, 1),))
+
+
+def _lin_add(a, b, sb=1):
+    d = dict(a[1])
+    for i, c in b[1]:
+        c2 = d.get(i, 0) + sb * c
+        if c2:
+            d[i] = c2
+        else:
+            d.pop(i, None)
+    return (a[0] + sb * b[0], tuple(sorted(d.items())))
+
+
+def _lin_scale(a, k):
+    if k == 0:
+        return (0, ())
+    return (a[0] * k, tuple((i, c * k) for i, c in a[1]))
+
+
+def _term_of(lin):
+    t = _TERMS.get(lin)
+    if t is None:
+        c, terms = lin
+        t = None
+        for i, co in terms:
+            at = ATOMS[i][0]
+            p = at if co == 1 else (-at if co == -1 else z3.BitVecVal(co, W) * at)
+            t = p if t is None else t + p
+        if t is None:
+            t = z3.BitVecVal(c, W)
+        elif c:
+            t = t + z3.BitVecVal(c, W)
+        _TERMS[lin] = t
+    return t
+
+
+def _interval(lin):
+    lo = hi = lin[0]
+    for i, c in lin[1]:
+        _, l, h = ATOMS[i]
+        if l is None:
+            return None, None
+        if c > 0:
+            lo, hi = lo + c * l, hi + c * h
+        else:
+            lo, hi = lo + c * h, hi + c * l
+    return lo, hi
+
+
+def lin_of(v):
+    if isinstance(v, SymInt):
+        return v.lin
+    if isinstance(v, bool):
+        return (int(v), ())
+    if isinstance(v, int):
+        return (v, ())
+    return _lin_of_term(bv(v))
+
+
+def from_lin(lin):
+    if not lin[1]:
+        return lin[0]
+    return SymInt(_term_of(lin), lin)
+
+
+class SymInt:
+    """t: the 80-bit term; lin: its linear form over atoms (see above)."""
+    __slots__ = ("t", "lin")
+
+    def __init__(self, t, lin=None):
         self.t = t
+        self.lin = _lin_of_term(t) if lin is None else lin
 
     # --- arithmetic (each result carries a no-overflow side obligation) ---
     def _bin(self, o, f, side=None, swap=False):
@@ -137,26 +231,43 @@ class SymInt:
             ctx().side.append(side(a, b))
         return SymInt(f(a, b))
 
+    def _linop(self, o, sign, swap=False):
+        if not _liftable(o):
+            return NotImplemented
+        ot = bv(o)
+        a, b = (ot, self.t) if swap else (self.t, ot)
+        if sign > 0:
+            ctx().side.append(z3.And(z3.BVAddNoOverflow(a, b, True), z3.BVAddNoUnderflow(a, b)))
+            r = _lin_add(self.lin, lin_of(o))
+        else:
+            ctx().side.append(z3.And(z3.BVSubNoOverflow(a, b), z3.BVSubNoUnderflow(a, b, True)))
+            r = _lin_add(lin_of(o), self.lin, -1) if swap else _lin_add(self.lin, lin_of(o), -1)
+        return from_lin(r)
+
     def __add__(self, o):
-        return self._bin(o, lambda a, b: a + b, lambda a, b: z3.And(z3.BVAddNoOverflow(a, b, True), z3.BVAddNoUnderflow(a, b)))
+        return self._linop(o, 1)
 
     def __radd__(self, o):
-        return self.__add__(o)
+        return self._linop(o, 1)
 
     def __sub__(self, o):
-        return self._bin(o, lambda a, b: a - b, lambda a, b: z3.And(z3.BVSubNoOverflow(a, b), z3.BVSubNoUnderflow(a, b, True)))
+        return self._linop(o, -1)
 
     def __rsub__(self, o):
-        return self._bin(o, lambda a, b: a - b, lambda a, b: z3.And(z3.BVSubNoOverflow(a, b), z3.BVSubNoUnderflow(a, b, True)), swap=True)
+        return self._linop(o, -1, swap=True)
 
     def __mul__(self, o):
+        if type(o) is int and _MIN <= o <= _MAX:
+            ot = z3.BitVecVal(o, W)
+            ctx().side.append(z3.And(z3.BVMulNoOverflow(self.t, ot, True), z3.BVMulNoUnderflow(self.t, ot)))
+            return from_lin(_lin_scale(self.lin, o))
         return self._bin(o, lambda a, b: a * b, lambda a, b: z3.And(z3.BVMulNoOverflow(a, b, True), z3.BVMulNoUnderflow(a, b)))
 
     __rmul__ = __mul__
 
     def __neg__(self):
         ctx().side.append(self.t != z3.BitVecVal(_MIN, W))
-        return SymInt(-self.t)
+        return from_lin(_lin_scale(self.lin, -1))
 
     def __pos__(self):
         return self
@@ -191,7 +302,7 @@ class SymInt:
         k = self._shift_amount(o)
         if k >= W:
             ctx().side.append(self.t == z3.BitVecVal(0, W))
-            return SymInt(z3.BitVecVal(0, W))
+            return 0
         r = self.t << k
         ctx().side.append((r >> k) == self.t)  # arithmetic shift back: no bits lost
         return SymInt(r)
@@ -210,34 +321,41 @@ class SymInt:
         raise Unsupported("SymInt % x")
 
     # --- comparisons (signed) ---
-    def _cmp(self, o, f):
+    def _cmp(self, o, f, g):
+        """f builds the z3 term, g decides on a python int d = self - o (None: cannot tell)"""
         if not _liftable(o):
             return NotImplemented
+        r = cmp_known(self, o, g)
+        if r is not None:
+            return r
         return SymBool(f(self.t, bv(o)))
 
     def __lt__(self, o):
-        return self._cmp(o, lambda a, b: a < b)
+        return self._cmp(o, lambda a, b: a < b, "lt")
 
     def __le__(self, o):
-        return self._cmp(o, lambda a, b: a <= b)
+        return self._cmp(o, lambda a, b: a <= b, "le")
 
     def __gt__(self, o):
-        return self._cmp(o, lambda a, b: a > b)
+        return self._cmp(o, lambda a, b: a > b, "gt")
 
     def __ge__(self, o):
-        return self._cmp(o, lambda a, b: a >= b)
+        return self._cmp(o, lambda a, b: a >= b, "ge")
 
     def __eq__(self, o):
         if o is None or isinstance(o, (str, bytes, float, list, tuple, dict)):
             return False
-        return self._cmp(o, lambda a, b: a == b)
+        return self._cmp(o, lambda a, b: a == b, "eq")
 
     def __ne__(self, o):
         if o is None or isinstance(o, (str, bytes, float, list, tuple, dict)):
             return True
-        return self._cmp(o, lambda a, b: a != b)
+        return self._cmp(o, lambda a, b: a != b, "ne")
 
     def __bool__(self):
+        r = cmp_known(self, 0, "ne")
+        if r is not None:
+            return r
         return ctx().decide(self.t != z3.BitVecVal(0, W))
 
     def __hash__(self):
@@ -264,6 +382,44 @@ class SymInt:
         return "<SymInt>"
 
     __str__ = __repr__
+
+
+_CMP = {"lt": (lambda lo, hi: True if hi < 0 else False if lo >= 0 else None),
+        "le": (lambda lo, hi: True if hi <= 0 else False if lo > 0 else None),
+        "gt": (lambda lo, hi: True if lo > 0 else False if hi <= 0 else None),
+        "ge": (lambda lo, hi: True if lo >= 0 else False if hi < 0 else None),
+        "eq": (lambda lo, hi: True if lo == hi == 0 else False if (lo > 0 or hi < 0) else None),
+        "ne": (lambda lo, hi: False if lo == hi == 0 else True if (lo > 0 or hi < 0) else None)}
+
+
+def cmp_known(a, b, op):
+    """a op b decided from linear forms + declared input ranges, or None"""
+    d = _lin_add(lin_of(a), lin_of(b), -1)
+    lo, hi = _interval(d)
+    if lo is None:
+        return None
+    return _CMP[op](lo, hi)
+
+
+def cdiff(a, b):
+    """a - b as a python int when the linear parts cancel, else None"""
+    if isinstance(a, int) and isinstance(b, int):
+        return a - b
+    d = _lin_add(lin_of(a), lin_of(b), -1)
+    return d[0] if not d[1] else None
+
+
+def iadd(a, b):
+    """engine-internal position arithmetic (no side obligations; positions are small)"""
+    if isinstance(a, int) and isinstance(b, int):
+        return a + b
+    return from_lin(_lin_add(lin_of(a), lin_of(b)))
+
+
+def isub(a, b):
+    if isinstance(a, int) and isinstance(b, int):
+        return a - b
+    return from_lin(_lin_add(lin_of(a), lin_of(b), -1))
 
 
 # ------------------------------------------------------------------------------------------------
@@ -325,8 +481,10 @@ class Stats:
 class PathCtx:
     """One execution of a harness along a decision prefix."""
 
-    def __init__(self, prefix, stats, limits):
+    def __init__(self, prefix, stats, limits, resume_model=None):
         self.prefix = prefix
+        self.resume_model = resume_model
+        self.model = None
         self.trace = []          # decisions taken (bool), including forced ones
         self.forks = []          # new prefixes to explore
         self.solver = z3.Solver()
@@ -362,8 +520,21 @@ class PathCtx:
             self.stats.unknown += 1
         return r, m
 
+    def _mval(self, cond):
+        """truth value of cond under the cached model of the path condition (None if no model)"""
+        if self.model is None:
+            return None
+        v = self.model.eval(cond, model_completion=True)
+        return True if z3.is_true(v) else False if z3.is_false(v) else None
+
+    def add(self, cond):
+        """extend the path condition; keep the cached model only if it still satisfies it"""
+        self.solver.add(cond)
+        if self.model is not None and self._mval(cond) is not True:
+            self.model = None
+
     def assume(self, cond):
-        self.solver.add(tb(cond))
+        self.add(tb(cond))
 
     def decide(self, cond):
         cond = z3.simplify(cond)
@@ -376,24 +547,38 @@ class PathCtx:
             raise Abort("bound", "decision cap %d reached" % i)
         if i < len(self.prefix):
             d = self.prefix[i]
+            self.trace.append(d)
+            self.add(cond if d else z3.Not(cond))
+            if i == len(self.prefix) - 1 and self.resume_model is not None:
+                self.model = self.resume_model
+            return d
+        mv = self._mval(cond)
+        m_t = m_f = None
+        if mv is True:
+            rt, m_t = z3.sat, self.model
+            rf, m_f = self._check(z3.Not(cond))
+        elif mv is False:
+            rf, m_f = z3.sat, self.model
+            rt, m_t = self._check(cond)
         else:
-            rt, _ = self._check(cond)
-            rf, _ = self._check(z3.Not(cond))
-            if rt == z3.unknown or rf == z3.unknown:
-                self.inconclusive.append("solver unknown at a branch feasibility query")
-            t_ok, f_ok = rt != z3.unsat, rf != z3.unsat
-            if t_ok and f_ok:
-                d = True
-                self.forks.append(self.trace + [False])
-                self.ndecisions += 1
-            elif t_ok:
-                d = True
-            elif f_ok:
-                d = False
-            else:
-                raise Abort("infeasible", "path condition became unsatisfiable")
+            rt, m_t = self._check(cond)
+            rf, m_f = self._check(z3.Not(cond))
+        if rt == z3.unknown or rf == z3.unknown:
+            self.inconclusive.append("solver unknown at a branch feasibility query")
+        t_ok, f_ok = rt != z3.unsat, rf != z3.unsat
+        if t_ok and f_ok:
+            d = True
+            self.forks.append((self.trace + [False], m_f))
+            self.ndecisions += 1
+        elif t_ok:
+            d = True
+        elif f_ok:
+            d = False
+        else:
+            raise Abort("infeasible", "path condition became unsatisfiable")
         self.trace.append(d)
         self.solver.add(cond if d else z3.Not(cond))
+        self.model = m_t if d else m_f
         return d
 
     def concretize(self, x, why):
@@ -401,9 +586,12 @@ class PathCtx:
         t = z3.simplify(bv(x))
         if z3.is_bv_value(t):
             return t.as_signed_long()
-        r, m = self._check()
-        if r != z3.sat:
-            raise Abort("infeasible" if r == z3.unsat else "unknown", "concretize: " + why)
+        m = self.model
+        if m is None:
+            r, m = self._check()
+            if r != z3.sat:
+                raise Abort("infeasible" if r == z3.unsat else "unknown", "concretize: " + why)
+            self.model = m
         v = m.eval(t, model_completion=True).as_signed_long()
         r2, _ = self._check(t != z3.BitVecVal(v, W))
         if r2 == z3.unsat:
@@ -433,16 +621,17 @@ class PathCtx:
         if r == z3.unsat:
             return True
         # continue the path under the assumption that the check held, if that is possible
-        rr, _ = self._check(c)
+        rr, mm = self._check(c)
         if rr == z3.sat:
             self.solver.add(c)
+            self.model = mm
             return False
         raise Abort("failed-check", obl)
 
     def fail(self, obl, key, desc=""):
         """The current path itself is a violation of obl (e.g. an unexpected exception)."""
-        r, m = self._check()
-        rec = {"obl": obl, "key": key, "desc": desc, "result": "sat" if r == z3.sat else str(r)}
+        r, m = (z3.sat, self.model) if self.model is not None else self._check()
+        rec = {"obl": obl, "key": key, "desc": desc, "result": "sat" if r == z3.sat else str(r), "uncond": True}
         if r == z3.sat:
             rec["model"] = self.model_inputs(m)
         self.checks.append(rec)
@@ -465,7 +654,7 @@ class PathCtx:
             r, m = self._check(z3.Not(c))
             self.checks.append({"obl": "int80-exact", "key": None, "desc": "no 80-bit overflow on this path",
                                 "result": str(r), **({"model": self.model_inputs(m)} if r == z3.sat else {})})
-        r, m = self._check()
+        r, m = (z3.sat, self.model) if self.model is not None else self._check()
         if r != z3.sat:
             return None, None
         vals = []
@@ -491,14 +680,15 @@ def eval_obs(m, v):
 def explore(run_one, limits, stats):
     """run_one(ctx) executes the harness once.  Yields finished PathCtx objects (depth-first)."""
     global CUR
-    work = [[]]
+    work = [([], None)]
     npaths = 0
     while work:
         if npaths >= limits.get("max_paths", 5000):
             yield ("overflow", len(work))
             return
-        prefix = work.pop()
-        c = PathCtx(prefix, stats, limits)
+        prefix, rm = work.pop()
+        c = PathCtx(prefix, stats, limits, rm)
+        reset_atoms()
         CUR = c
         try:
             try:
